@@ -25,7 +25,7 @@ EXPLANATION = (
 )
 RULE_TEXT = "instances = branches/comprehensions of the two chaining functions, the width construction, and per bundled rule: factor correspondences, phase scalar, control handling, ordering; distinct by (rule, construct)"
 ASSUMPTIONS = [
-    "declined: equality of the decomposed and original unitaries for all angles (matrix identity); the PHASE rule only reads the relation that the gate's own matrix factory states",
+    "decided for the bundled rule on an uncontrolled target: target(angles) = s * product(emitted factors) with |s| = 1 for all real angles, in the exponential-polynomial normal form of the gate tables (C02's engine); declined: the same identity under controls beyond the relative-phase argument of the PHASE rule, and for rules whose production is not a fixed list of built-in gate calls",
 ]
 
 DEC = "decompositions._decomposition"
@@ -315,6 +315,31 @@ def check_rules(ctx):
             # the controlled disjunct must test the wrapped gate's name, the plain one the gate's own
             wrapped_ok = any(isinstance(c, ast.Compare) and norm(c.left) == f"{opv}.gate.wrapped_gate.name" for c in walk_local(pred.node))
             ctx.check(wrapped_ok, R4, ci.key + ":controlled-target", "controlled disjunct tests the wrapped gate's name", "the controlled disjunct does not test the wrapped gate's name", pred)
+        # ---- exact identity: (product of the emitted gates' own matrices, in matrix order) * conj-transpose of the target's
+        # matrix is a scalar matrix s*1 with |s| = 1 for *all* real angles -- decided in the exponential-polynomial normal form
+        # the gate tables fold into (C02's engine; no repo code is run, no solver is called)
+        try:
+            from ..exppoly import EP, Mat, Undecided
+            from .c02 import _fold
+
+            vars_ = [EP.var(p_) for p_ in fparams]
+            tgt_m = _fold(ctx, target, vars_)
+            prod_m = None
+            for e_ in emitted.elts:  # emitted list is in matrix order (checked by :factors / :order)
+                ge = by_name.get(e_.func.id)
+                args_ = [EP.var(fparams[unpack.index(norm(a))]) for a in e_.args]
+                m_ = _fold(ctx, ge, args_)
+                prod_m = m_ if prod_m is None else prod_m * m_
+            ratio = tgt_m * prod_m.adjoint()
+            dim = ratio.shape[0]
+            offdiag = all(ratio.rows[i][j].is_zero() for i in range(dim) for j in range(dim) if i != j)
+            same = all(ratio.rows[i][i] == ratio.rows[0][0] for i in range(dim))
+            s_ = ratio.rows[0][0]
+            unit = (s_ * s_.conj()) == EP.const(__import__("sa.exppoly", fromlist=["K1"]).K1)
+            ctx.check(offdiag and same and unit, R3, ci.key + ":exact-up-to-phase", f"{target.ident}(angles) = s * (emitted factors) for all real angles, s = {s_!r}, |s| = 1", f"the emitted sequence does not equal {target.ident} up to one scalar of modulus 1 for all real angles: target * (product)^dagger has off-diagonal zero={offdiag}, equal diagonal={same}, unit modulus={unit}", where)
+            ctx.extra["u3_phase_normal_form"] = repr(s_)
+        except Exception as e_:  # the fold left the closed-form fragment: not decided here (C02 reports that)
+            ctx.info(R3, ci.key + ":exact-up-to-phase", f"exact identity not evaluated: {type(e_).__name__}: {e_}", prod)
         # ---- PHASE
         drops = scalar is not None and not is_const(scalar, 1)
         key = ci.key + ":controlled-phase"
